@@ -13,7 +13,7 @@ ATTR_KEYS_INV = {v: k for k, v in ATTR_KEYS.items()}
 
 # labels with characters that str.splitlines / str.split() treat as separators but "\n"-based line
 # reading does not (only used with explicit delimiters)
-EXOTIC = ["a\u2028b", "id\x1d42", "p\rq", "x\x85y", "m\x0cn", "t\u2029u", "v\x0bw", "s\x1ct"]
+EXOTIC = ["a\u2028b", "New York", "p\rq", "x\x85y", "m\x0cn", "t\u2029u", "v\x0bw", "s\x1ct"]
 NUMSTR = ["10", "2", "33", "4", "100", "7", "21", "3"]
 UNKNOWN = -2  # a label the map cannot invert (reported as an anomaly)
 
